@@ -723,7 +723,7 @@ package codec
 //@   nopanic
 
 //@ func (*CodecManager).Decode
-//@   prop C12
+//@   prop C12 C13
 //@   requires c != nil && (len(in) >= 2 || c.codecMap[codecType] == nil || c.codecMap[codecType][0] == nil)
 //@   let tc := ite(len(in) >= 2, sint16(un16(in[0:2])), 0)
 //@   let inner := c.codecMap[codecType]
